@@ -247,6 +247,7 @@ WORLDS.append(b.world([
 b = B("inheritance")
 b.add("B1 = m.new_space('B1')", "B1.r = 1", "B2 = m.new_space('B2')", "B2.r = 2",
       cells("B1", "foo", "r + 10"), cells("B2", "foo", "r + 20"), cells("B2", "bar", "foo() + 100", style="def"),
+      cells("B1", "baz", "nr + 50"),
       "Sub = m.new_space('Sub', bases=[B1, B2])", "Sub2 = m.new_space('Sub2', bases=Sub)", "T = m.new_space('T')")
 b.q("m.B1.foo()", "name-space-ref", "in-base")
 b.q("m.Sub.foo()", "name-derived-ref", "derived-cells")
@@ -257,6 +258,8 @@ b.leaf("T", "m.T", "t2", "_model.Sub2.r + 2000", "attr-derived-ref", "second-lev
 b.add(cells("T", "tf", "_model.Sub.foo() + 3000"))
 b.q("m.T.tf()", "attr-derived-cells", "caller-in-other-space", unc=("Sub.foo",))
 b.q("m.Sub3.bar()", "name-derived-ref", "derived-cells", "via:cached-callee", "sub-created-later", unc=("Sub3.foo",))
+b.q("m.Sub.baz()", "name-derived-ref", "derived-cells", "ref-created-later")
+b.q("m.Sub2.baz()", "name-derived-ref", "derived-cells", "ref-created-later", "second-level-sub")
 WORLDS.append(b.world([
     sref("m.B1", "r", 3, "in-base"),
     sref("m.B2", "r", 4, "in-base"),
@@ -275,6 +278,8 @@ WORLDS.append(b.world([
     e("m.B1.foo.is_cached = False", "cached-flag", "in-base"),
     e("m.B2.bar.rename('bar2')", "cells-rename", "in-base"),
     e("m.new_space('Sub3', bases=m.Sub)", "space-create", "new-sub-space"),
+    sref("m.B1", "nr", 6, "in-base"),
+    sdel("m.B1", "nr", "in-base"),
 ]))
 
 # ------------------------------------------------------------------------------------------------------------
